@@ -25,9 +25,9 @@ theorem ph_api_rt (p : ProtectedHeader) (hw : ProtectedHeader.WF maxNest p) :
   rw [(fuel_independent maxNest).2.1 topFuel _ (by simp [topFuel])]; exact h2
 
 theorem sig_api_rt (s : CoseSignature) (hw : CoseSignature.WF maxNest s) :
-    ∃ x s', CoseSignature.toValue s = .ok x ∧ sigFromValue x = .ok s' ∧ CoseSignature.erase s' = CoseSignature.erase s := by
-  obtain ⟨b, tl, s', h1, h2, h3⟩ := (built_rt maxNest).2.2 s hw
-  exact ⟨_, s', h1, h2, h3⟩
+    ∃ x s', CoseSignature.toValue s = .ok x ∧ sigFromValue x = .ok s' ∧ CoseSignature.erase s' = CoseSignature.erase s ∧ SigSame s' s := by
+  obtain ⟨b, tl, s', h1, h2, h3, h4⟩ := (built_rt maxNest).2.2 s hw
+  exact ⟨_, s', h1, h2, h3, h4⟩
 
 /-- the two header slots every message starts with. -/
 theorem slots_rt (p : ProtectedHeader) (u : Header) (hp : ProtectedHeader.WF maxNest p) (hu : Header.WF maxNest u) :
@@ -36,6 +36,46 @@ theorem slots_rt (p : ProtectedHeader) (u : Header) (hp : ProtectedHeader.WF max
   obtain ⟨b, p', h1, h2, h3, h4⟩ := ph_api_rt p hp
   obtain ⟨y, u', g1, g2, g3⟩ := hdr_api_rt u hu
   exact ⟨b, y, p', u', by simp [headerSlots, h1, g1], h2, g2, h3, g3, h4⟩
+
+theorem slots_first (p : ProtectedHeader) (u : Header) (pv y : Value) (h : headerSlots p u = .ok [pv, y]) : ProtectedHeader.cborBstr p = .ok pv := by
+  simp only [headerSlots] at h
+  cases hp : ProtectedHeader.cborBstr p with
+  | ok pv' =>
+    simp only [hp] at h
+    cases hu : Header.toValue u with
+    | ok uv => simp [hu] at h; rw [h.1]
+    | err e => simp [hu] at h
+    | panic q => simp [hu] at h
+  | err e => simp [hp] at h
+  | panic q => simp [hp] at h
+
+theorem headerSlots_ok (p : ProtectedHeader) (u : Header) (hs : List Value) (h : headerSlots p u = .ok hs) :
+    ∃ pv uv, hs = [pv, uv] ∧ ProtectedHeader.cborBstr p = .ok pv ∧ Header.toValue u = .ok uv := by
+  simp only [headerSlots] at h
+  cases hp : ProtectedHeader.cborBstr p with
+  | ok pv =>
+    simp only [hp] at h
+    cases hu : Header.toValue u with
+    | ok uv => simp [hu] at h; exact ⟨pv, uv, h.symm, rfl, rfl⟩
+    | err e => simp [hu] at h
+    | panic q => simp [hu] at h
+  | err e => simp [hp] at h
+  | panic q => simp [hp] at h
+
+/-- the first slot of an emitted message is what `cbor_bstr` gave for its protected header. -/
+theorem first_slot (p : ProtectedHeader) (u : Header) (tail : List Value) (r : Res Value) (pv : Value) (rest : List Value)
+    (hr : r = match headerSlots p u with
+      | .ok hs => .ok (.array (hs ++ tail))
+      | .err e => .err e
+      | .panic s => .panic s)
+    (h : r = .ok (.array (pv :: rest))) : ProtectedHeader.cborBstr p = .ok pv := by
+  rw [hr] at h
+  cases hs : headerSlots p u with
+  | ok hsl =>
+    obtain ⟨pv', uv, rfl, h1, _⟩ := headerSlots_ok p u hsl hs
+    simp [hs] at h; rw [← h.1]; exact h1
+  | err e => simp [hs] at h
+  | panic q => simp [hs] at h
 
 theorem optBytes_emit (o : Option Bytes) : optBytes (optBytesToValue o) = .ok o := by cases o <;> rfl
 
@@ -70,25 +110,28 @@ theorem encrypt0_rt (m : CoseEncrypt0) (hp : ProtectedHeader.WF maxNest m.protec
 
 /-- signers of a COSE_Sign. -/
 theorem signers_rt : ∀ ss, sigsWF maxNest ss →
-    ∃ vs ss', sigsToValues ss = .ok vs ∧ mapRes (fun s => (sigFromValue s).mapErr .unexpectedItem) vs = .ok ss' ∧ eraseSigs ss' = eraseSigs ss := by
+    ∃ vs ss', sigsToValues ss = .ok vs ∧ mapRes (fun s => (sigFromValue s).mapErr .unexpectedItem) vs = .ok ss' ∧ eraseSigs ss' = eraseSigs ss ∧
+      sigsSame ss' ss := by
   intro ss
   induction ss with
-  | nil => intro _; exact ⟨[], [], rfl, rfl, rfl⟩
+  | nil => intro _; exact ⟨[], [], rfl, rfl, rfl, trivial⟩
   | cons s ss ih =>
     intro hw
     simp only [sigsWF] at hw
-    obtain ⟨vs, ss', h1, h2, h3⟩ := ih hw.2
-    obtain ⟨x, s', g1, g2, g3⟩ := sig_api_rt s hw.1
-    exact ⟨x :: vs, s' :: ss', by simp [sigsToValues, g1, h1], by rw [mapRes_cons_ok]; exact ⟨s', ss', by simp [g2, Res.mapErr], h2, rfl⟩, by simp [eraseSigs, g3, h3]⟩
+    obtain ⟨vs, ss', h1, h2, h3, h4⟩ := ih hw.2
+    obtain ⟨x, s', g1, g2, g3, g4⟩ := sig_api_rt s hw.1
+    exact ⟨x :: vs, s' :: ss', by simp [sigsToValues, g1, h1], by rw [mapRes_cons_ok]; exact ⟨s', ss', by simp [g2, Res.mapErr], h2, rfl⟩, by simp [eraseSigs, g3, h3],
+      ⟨g4, h4⟩⟩
 
 theorem sign_rt (m : CoseSign) (hp : ProtectedHeader.WF maxNest m.protected_) (hu : Header.WF maxNest m.unprotected) (hs : sigsWF maxNest m.signatures) :
     ∃ b y vs m', m.toValue = .ok (.array [.bytes b, y, optBytesToValue m.payload, .array vs]) ∧
       CoseSign.fromValue (.array [.bytes b, y, optBytesToValue m.payload, .array vs]) = .ok m' ∧
       ProtectedHeader.erase m'.protected_ = ProtectedHeader.erase m.protected_ ∧ Header.erase m'.unprotected = Header.erase m.unprotected ∧
-      m'.payload = m.payload ∧ eraseSigs m'.signatures = eraseSigs m.signatures ∧ m'.protected_.originalData = some b := by
+      m'.payload = m.payload ∧ eraseSigs m'.signatures = eraseSigs m.signatures ∧ m'.protected_.originalData = some b ∧
+      sigsSame m'.signatures m.signatures := by
   obtain ⟨b, y, p', u', h1, h2, h3, h4, h5, h6⟩ := slots_rt _ _ hp hu
-  obtain ⟨vs, ss', g1, g2, g3⟩ := signers_rt _ hs
-  refine ⟨b, y, vs, ⟨p', u', m.payload, ss'⟩, by simp [CoseSign.toValue, h1, g1], ?_, h4, h5, rfl, g3, h6⟩
+  obtain ⟨vs, ss', g1, g2, g3, g4⟩ := signers_rt _ hs
+  refine ⟨b, y, vs, ⟨p', u', m.payload, ss'⟩, by simp [CoseSign.toValue, h1, g1], ?_, h4, h5, rfl, g3, h6, g4⟩
   exact (sign_ok_iff _ _).mpr ⟨.bytes b, y, _, vs, rfl, h2, h3, optBytes_emit _, g2⟩
 
 /-! ### recipients (nested) -/
@@ -118,7 +161,8 @@ def eraseRcps : List CoseRecipient → List CoseRecipient
 end
 
 theorem recipient_rt : ∀ (n : Nat) (r : CoseRecipient), r.height ≤ n → r.WF →
-    ∃ x r', r.toValue = .ok x ∧ (∀ f', x.size < f' → CoseRecipient.fromValue f' x = .ok r') ∧ r'.erase = r.erase := by
+    ∃ x r', r.toValue = .ok x ∧ (∀ f', x.size < f' → CoseRecipient.fromValue f' x = .ok r') ∧ r'.erase = r.erase ∧
+      ProtectedHeader.cborBstr r'.protected_ = ProtectedHeader.cborBstr r.protected_ ∧ r'.ciphertext = r.ciphertext := by
   intro n
   induction n with
   | zero => intro r hh _; cases r; simp [CoseRecipient.height] at hh
@@ -128,19 +172,21 @@ theorem recipient_rt : ∀ (n : Nat) (r : CoseRecipient), r.height ≤ n → r.W
     | mk p u ct rs =>
       simp only [CoseRecipient.WF] at hw
       simp only [CoseRecipient.height] at hh
-      obtain ⟨b, y, p', u', h1, h2, h3, h4, h5, _⟩ := slots_rt p u hw.1 hw.2.1
+      obtain ⟨b, y, p', u', h1, h2, h3, h4, h5, h6⟩ := slots_rt p u hw.1 hw.2.1
+      have hsame : ProtectedHeader.cborBstr p' = ProtectedHeader.cborBstr p := by
+        rw [cborBstr_of_orig p' b h6, slots_first p u _ _ h1]
       have hnest : ∃ ys rs', recipientsToValues rs = .ok ys ∧ eraseRcps rs' = eraseRcps rs ∧ ys.length = rs.length ∧ rs'.length = rs.length ∧
           ∀ f'', Value.sizeL ys < f'' → mapRes (CoseRecipient.fromValue f'') ys = .ok rs' := by
         have hh' : heightL rs ≤ n := by omega
         have hw' := hw.2.2
-        clear hh hw h1 h2 h3 h4 h5
+        clear hh hw h1 h2 h3 h4 h5 h6 hsame
         induction rs with
         | nil => exact ⟨[], [], by simp [recipientsToValues], rfl, rfl, rfl, fun _ _ => rfl⟩
         | cons r0 rs0 ihr =>
           simp only [heightL] at hh'
           simp only [rcpsWF] at hw'
           obtain ⟨ys, rs', a1, a2, a3, a4, a5⟩ := ihr (by omega) hw'.2
-          obtain ⟨x0, r0', c1, c2, c3⟩ := ih r0 (by omega) hw'.1
+          obtain ⟨x0, r0', c1, c2, c3, _⟩ := ih r0 (by omega) hw'.1
           refine ⟨x0 :: ys, r0' :: rs', by simp [recipientsToValues, c1, a1], by simp [eraseRcps, c3, a2], by simp [a3], by simp [a4], ?_⟩
           intro f'' hf''
           simp only [Value.sizeL] at hf''
@@ -150,14 +196,15 @@ theorem recipient_rt : ∀ (n : Nat) (r : CoseRecipient), r.height ≤ n → r.W
       | nil =>
         have : rs' = [] := List.length_eq_zero_iff.mp (by simpa using n4)
         subst this
-        refine ⟨.array [.bytes b, y, optBytesToValue ct], .mk p' u' ct [], by simp [CoseRecipient.toValue, h1], ?_, by simp [CoseRecipient.erase, h4, h5, eraseRcps]⟩
+        refine ⟨.array [.bytes b, y, optBytesToValue ct], .mk p' u' ct [], by simp [CoseRecipient.toValue, h1], ?_, by simp [CoseRecipient.erase, h4, h5, eraseRcps],
+          by simpa [CoseRecipient.protected_] using hsame, rfl⟩
         intro f' hf'
         cases f' with
         | zero => omega
         | succ f'' => exact (recipient_ok_iff f'' _ p' u' ct []).mpr (Or.inl ⟨.bytes b, y, _, rfl, h2, h3, optBytes_emit ct, rfl⟩)
       | cons r0 rs0 =>
         refine ⟨.array [.bytes b, y, optBytesToValue ct, .array ys], .mk p' u' ct rs', by simp [CoseRecipient.toValue, h1, n1], ?_,
-          by simp [CoseRecipient.erase, h4, h5, n2]⟩
+          by simp [CoseRecipient.erase, h4, h5, n2], by simpa [CoseRecipient.protected_] using hsame, rfl⟩
         intro f' hf'
         cases f' with
         | zero => omega
@@ -167,8 +214,13 @@ theorem recipient_rt : ∀ (n : Nat) (r : CoseRecipient), r.height ≤ n → r.W
           omega
 
 theorem rcp_rt (r : CoseRecipient) (hw : r.WF) : ∃ x r', r.toValue = .ok x ∧ rcpFromValue x = .ok r' ∧ r'.erase = r.erase := by
-  obtain ⟨x, r', h1, h2, h3⟩ := recipient_rt r.height r (Nat.le_refl _) hw
+  obtain ⟨x, r', h1, h2, h3, _⟩ := recipient_rt r.height r (Nat.le_refl _) hw
   exact ⟨x, r', h1, h2 _ (by omega), h3⟩
+
+theorem rcp_rt_same (r : CoseRecipient) (hw : r.WF) : ∃ x r', r.toValue = .ok x ∧ rcpFromValue x = .ok r' ∧
+    ProtectedHeader.cborBstr r'.protected_ = ProtectedHeader.cborBstr r.protected_ ∧ r'.ciphertext = r.ciphertext := by
+  obtain ⟨x, r', h1, h2, _, h4, h5⟩ := recipient_rt r.height r (Nat.le_refl _) hw
+  exact ⟨x, r', h1, h2 _ (by omega), h4, h5⟩
 
 theorem rcps_rt : ∀ rs, rcpsWF rs → ∃ ys rs', recipientsToValues rs = .ok ys ∧ mapRes rcpFromValue ys = .ok rs' ∧ eraseRcps rs' = eraseRcps rs := by
   intro rs
